@@ -1470,12 +1470,13 @@ fn dl_unit(a: &[char], b: &[char]) -> usize {
 
 fn p16(p: &mut ProbeReport, r: &mut Rng, budget: usize) {
     let dl = DamerauLevenshtein::new();
-    let syms: [(char, u32); 6] = [('a', 7), ('e', 7), ('b', 6), ('c', 6), ('1', 4), ('x', 0)];
+    // the last three collide with `k` when a scalar is truncated to 8 / 16 bits
+    let syms: [(char, u32); 9] = [('a', 7), ('e', 7), ('b', 6), ('c', 6), ('1', 4), ('x', 0), ('k', 6), ('\u{16B}', 7), ('\u{1006B}', 0)];
     let mk = |w: &Vec<char>, plain: bool| -> TextOwn { text_from_parts(w, &w.iter().map(|c| if plain { 0 } else { syms.iter().find(|e| e.0 == *c).map(|e| e.1).unwrap_or(0) }).collect::<Vec<_>>()) };
     while p.evaluations < budget {
         let long = r.chance(1, 5);
         let la = if long { r.range(18, 60) } else { r.range(0, 6) };
-        let k = r.range(2, 6);
+        let k = if r.chance(1, 3) { 9 } else { r.range(2, 6) };
         let a: Vec<char> = (0..la).map(|_| syms[r.below(k)].0).collect();
         let b: Vec<char> = if r.chance(1, 2) { let mut b = a.clone(); for _ in 0..r.range(0, 3) { if b.is_empty() { break; } let pos = r.below(b.len()); match r.below(4) { 0 => { b.remove(pos); } 1 => b.insert(pos, syms[r.below(k)].0), 2 => b[pos] = syms[r.below(k)].0, _ => if pos + 1 < b.len() { b.swap(pos, pos + 1) } } } b } else { let lb = r.range(0, 6); (0..lb).map(|_| syms[r.below(k)].0).collect() };
         let (ta, tb) = (mk(&a, false), mk(&b, false));
